@@ -61,7 +61,8 @@ class Interp(seq_detached.DetachedMixin, S.SeqRun):
         return out
 
     def ent_order(self):
-        return S.ENT_ORDER + (('Profile', 'Profile') if 'Profile' in self.schema.by_name else ())
+        return S.ENT_ORDER + (('Profile', 'Profile') if 'Profile' in self.schema.by_name else ()) + \
+            (('Student', 'Student', 'Student') if 'Student' in self.schema.by_name else ())
 
     # ------------------------------------------------------------------ modifications
     def op_new(self, a, b, c, via_collection=None):
@@ -166,10 +167,11 @@ class Interp(seq_detached.DetachedMixin, S.SeqRun):
         keys += list(e.composite_keys)
         for k in keys:
             vs = tuple(vals.get(n) for n in k)
-            other = self.view.key_conflict(e.name, k, vs, but=mid)
+            owner = e.key_owner(k)      # a key declared by the base class ranges over the whole hierarchy
+            other = self.view.key_conflict(owner, k, vs, but=mid)
             if other is not None:
-                d = DupInfo('%s(%s)=%r' % (e.name, ','.join(k), vs))
-                d.ent, d.attrs, d.vals, d.other, d.mid = e.name, k, vs, other, mid
+                d = DupInfo('%s(%s)=%r' % (owner, ','.join(k), vs))
+                d.ent, d.attrs, d.vals, d.other, d.mid = owner, k, vs, other, mid
                 return d
         return None
 
@@ -177,7 +179,7 @@ class Interp(seq_detached.DetachedMixin, S.SeqRun):
         for k in self._key_sets(e):
             vs = tuple(mo.vals.get(n) for n in k)
             if all(x is not None for x in vs):
-                kk = (e.name, k, vs)
+                kk = (e.key_owner(k), k, vs)
                 if kk in self.released_keys:
                     self.session_clean = False
                 self.taken_keys.add(kk)
@@ -186,7 +188,7 @@ class Interp(seq_detached.DetachedMixin, S.SeqRun):
         for k in self._key_sets(e):
             vs = tuple(vals.get(n) for n in k)
             if all(x is not None for x in vs):
-                self.released_keys.add((e.name, k, vs))
+                self.released_keys.add((e.key_owner(k), k, vs))
 
     def _key_sets(self, e):
         ks = [tuple(a.name for a in e.pk_attrs)] if (not e.auto_pk and not any(a.is_rel for a in e.pk_attrs)) else []
@@ -328,7 +330,7 @@ class Interp(seq_detached.DetachedMixin, S.SeqRun):
             if sa not in chosen and r.chance(0.8):
                 chosen.append(sa)
         for sa in chosen:
-            cands = [o.mid for o in self.live_sorted(sa.rel) if not (sa.rel == mo.ent and o.mid == mo.mid)]
+            cands = [o.mid for o in self.live_sorted(sa.rel) if o.mid != mo.mid]
             cur = sorted(self.view.partners(sa, mo.mid))
             items = set(x for x in cur if r.chance(0.5))
             for i in range(r.below(3)):
@@ -472,7 +474,7 @@ class Interp(seq_detached.DetachedMixin, S.SeqRun):
         e = self.schema.by_name[mo.ent]
         sa = e.sets()[b % len(e.sets())]
         cands = [o.mid for o in self.live_sorted(sa.rel)]
-        if sa.rel == mo.ent:
+        if sa.rel == mo.ent or self.view._is_sub(mo.ent, sa.rel):
             # an object is never linked to itself (observed on the unchanged tree: p.friends.add(p) double-counts
             # the cached count, and deleting an object that is its own boss queues its DELETE twice; exotic
             # self-links are kept out of the workload, see DESIGN 7)
@@ -527,7 +529,7 @@ class Interp(seq_detached.DetachedMixin, S.SeqRun):
         mo = owners[a % len(owners)]
         e = self.schema.by_name[mo.ent]
         sa = e.sets()[b % len(e.sets())]
-        cands = [o.mid for o in self.live_sorted(sa.rel) if not (sa.rel == mo.ent and o.mid == mo.mid)]
+        cands = [o.mid for o in self.live_sorted(sa.rel) if o.mid != mo.mid]
         if not cands:
             return None
         it = cands[c % len(cands)]
@@ -593,7 +595,7 @@ class Interp(seq_detached.DetachedMixin, S.SeqRun):
         mo = owners[a % len(owners)]
         e = self.schema.by_name[mo.ent]
         sa = e.sets()[b % len(e.sets())]
-        cands = [o.mid for o in self.live_sorted(sa.rel) if not (sa.rel == mo.ent and o.mid == mo.mid)]
+        cands = [o.mid for o in self.live_sorted(sa.rel) if o.mid != mo.mid]
         cur = sorted(self.view.partners(sa, mo.mid))
         src = cur if (cur and c % 3) else cands
         if not src:
@@ -636,7 +638,8 @@ class Interp(seq_detached.DetachedMixin, S.SeqRun):
         ra = [x for x in e.to_ones() if x.required and self.schema.by_name[x.rel].auto_pk][0]
         stored = [o for o in self.live_sorted(ra.rel) if o.stored and o.pk is not None]
         self.refresh_pks()      # keys handed out by a flush Pony made on its own (before a query) count as known
-        known = [o.pk[0] for o in self.view.objs.values() if o.ent == ra.rel and o.pk is not None]
+        known = [o.pk[0] for o in self.view.objs.values()
+                 if (o.ent == ra.rel or self.view._is_sub(o.ent, ra.rel)) and o.pk is not None]
         cache = self.cache()
         if cache is not None:
             # ... and so does every key in the identity map (e.g. of an object deleted in this session)
@@ -1343,11 +1346,14 @@ class Interp(seq_detached.DetachedMixin, S.SeqRun):
 
     def _probe_pk(self, mo):
         e = self.schema.by_name[mo.ent]
-        P = self.E[mo.ent]
-        what = 'r_pk %s[%r]' % (mo.ent, mo.pk)
+        ask = mo.ent
+        if e.base and (mo.mid + self.op_index if isinstance(self.op_index, int) else mo.mid) % 2:
+            ask = e.base        # through the base class: Person[pk] has to hand out the Student object
+        P = self.E[ask]
+        what = 'r_pk %s[%r]' % (ask, mo.pk)
         key = mo.pk[0] if len(mo.pk) == 1 else mo.pk
         # another live object may have taken over the same key (delete + recreate)
-        holders = [o for o in self.view.live(mo.ent) if o.pk == mo.pk]
+        holders = [o for o in self.view.live(ask) if o.pk == mo.pk]
         if not holders and any(x.is_rel for x in e.pk_attrs) and \
                 not all(any(t.pk == (kv,) for t in self.view.live(x.rel)) for x, kv in zip(e.pk_attrs, mo.pk) if x.is_rel):
             # a raw value for a primary key that is a reference plants an (unverified) reference to a row that
